@@ -473,6 +473,9 @@ NOT_APPLICABLE = {
 
 # witnesses for unlabelled failures inside a function (failed proof step / precondition): by function name
 GOTO_COLLAPSE_WITNESSES = [w('local f = function() goto x end\n::x::\nlocal function g()\n  goto x\nend\n', oracle="tree", syntax="lua52", collapse_simple_statement=c) for c in ("Always", "FunctionOnly")]
-FN_WITNESSES = {"update_trivia": FEATURE_SET_WITNESSES, "block_contains_nested_function": GOTO_COLLAPSE_WITNESSES + COLLAPSE_LUAU_WITNESSES, "load": [cli("option_carriers")], "load_overrides": [cli("config_search"), cli("option_carriers")], "format_file": [cli("write_only_formatted_text"), cli("check_never_writes")],
+# an indented comment in front of `else` / `elseif` of a nested if, shallower and deeper than the statement, with an indent width of 0 (D49), 1 and 4
+INDENT_FURTHER_SRC = 'do\n    if a then\n        b()\n  -- two columns in\n    elseif c then\n        d()\n            -- far in\n    else\n        e()\n    end\nend\n'
+INDENT_FURTHER_WITNESSES = [w(INDENT_FURTHER_SRC, oracle="tree", indent_type=t, indent_width=n) for t in ("Spaces", "Tabs") for n in ("0", "1", "4")]
+FN_WITNESSES = {"should_indent_further": INDENT_FURTHER_WITNESSES, "update_trivia": FEATURE_SET_WITNESSES, "block_contains_nested_function": GOTO_COLLAPSE_WITNESSES + COLLAPSE_LUAU_WITNESSES, "load": [cli("option_carriers")], "load_overrides": [cli("config_search"), cli("option_carriers")], "format_file": [cli("write_only_formatted_text"), cli("check_never_writes")],
                 "format_string": [cli("stdin_stdout_only")], "create_diff": [cli("check_never_writes")], "output_diff_json": [cli("json_diff_reconstructs")],
                 "load_configuration": [cli("config_search")], "find_config_file": [cli("config_search")]}
